@@ -325,12 +325,22 @@ Inductive result :=
 
 Definition str_in (s : str) (l : list str) : bool := existsb (str_eqb s) l.
 
+(* s.endswith(c) for a single character c, in one pass (Base.PyStr.endswith
+   reverses s with the quadratic List.rev, too slow for 4300-digit texts in the
+   extracted driver); Constant_lemmas.ends_with_endswith proves it equal to
+   endswith s [c] *)
+Fixpoint ends_with (s : str) (c : N) : bool :=
+  match s with
+  | [] => false
+  | d :: r => match r with [] => eqc c d | _ :: _ => ends_with r c end
+  end.
+
 Definition evaluate (o : option str) : result :=
   match o with
   | None => RNull
   | Some [] => RNull
   | Some s =>
-      if xorb (startswith s [34%N]) (endswith s [34%N]) then RConstErr   (* unbalanced quotes *)
+      if xorb (startswith s [34%N]) (ends_with s 34%N) then RConstErr   (* unbalanced quotes *)
       else if str_in s [TRUE_S; FALSE_S; NULL_S] then RStr s
       else
         match json_loads s with
@@ -360,7 +370,7 @@ Definition ctype (o : option str) : ty :=
       | RNull => TyNull
       | RInt => TyInteger
       | RFloat => TyFloat
-      | RStr _ => if startswith s [34%N] && endswith s [34%N] then TyString else TySymbol
+      | RStr _ => if startswith s [34%N] && ends_with s 34%N then TyString else TySymbol
       | RConstErr => TyConstErr
       | RFuel => TyFuel
       end
